@@ -31,6 +31,37 @@ fn receivers() -> Vec<Recv> {
         Recv { label: "bool", ty_text: "bool", value: "true", ty: TBool, nominal: None, stream: "main" },
         Recv { label: "unit", ty_text: "unit", value: "()", ty: TUnit, nominal: None, stream: "main" },
         Recv { label: "float64", ty_text: "float64", value: "1.5", ty: TFloat64, nominal: None, stream: "main" },
+        Recv { label: "int8", ty_text: "int8", value: "7i8", ty: TInt8, nominal: None, stream: "main" },
+        Recv { label: "int64", ty_text: "int64", value: "7i64", ty: TInt64, nominal: None, stream: "main" },
+        Recv { label: "uint8", ty_text: "uint8", value: "7u8", ty: TUint8, nominal: None, stream: "main" },
+        Recv { label: "uint64", ty_text: "uint64", value: "7u64", ty: TUint64, nominal: None, stream: "main" },
+        Recv { label: "float32", ty_text: "float32", value: "1.5f32", ty: TFloat32, nominal: None, stream: "main" },
+        Recv { label: "struct_lowercase", ty_text: "pq", value: "pq { a: 1 }", ty: st("pq"), nominal: Some("pq"), stream: "main" },
+        Recv { label: "enum_underscore", ty_text: "E_e", value: "E_e::Cc", ty: en("E_e"), nominal: Some("E_e"), stream: "main" },
+        Recv {
+            label: "array_of_struct",
+            ty_text: "[Pq; 1]",
+            value: "[Pq { a: 1 }]",
+            ty: TArray { len: 1, elem: Box::new(st("Pq")) },
+            nominal: None,
+            stream: "main",
+        },
+        Recv {
+            label: "tuple_of_ref_vec",
+            ty_text: "(Ref[int32], Vec[string])",
+            value: "(ref(1), vec_push(vec_new(), \"s\"))",
+            ty: TTuple { typs: vec![TRef { elem: Box::new(TInt32) }, TVec { elem: Box::new(TString) }] },
+            nominal: None,
+            stream: "main",
+        },
+        Recv {
+            label: "vec_of_tuple",
+            ty_text: "Vec[(int32, bool)]",
+            value: "vec_push(vec_new(), (1, true))",
+            ty: TVec { elem: Box::new(TTuple { typs: vec![TInt32, TBool] }) },
+            nominal: None,
+            stream: "main",
+        },
         Recv { label: "struct", ty_text: "Pq", value: "Pq { a: 1 }", ty: st("Pq"), nominal: Some("Pq"), stream: "main" },
         Recv { label: "struct_underscore", ty_text: "A_b", value: "A_b { a: 1 }", ty: st("A_b"), nominal: Some("A_b"), stream: "main" },
         Recv { label: "enum", ty_text: "Ee", value: "Ee::Bb(3)", ty: en("Ee"), nominal: Some("Ee"), stream: "main" },
@@ -95,12 +126,13 @@ fn receivers() -> Vec<Recv> {
     ]
 }
 
-const NAMES: [(&str, &str); 4] = [("Tr", "m"), ("Show", "show"), ("A_B", "c_d"), ("Tr", "main")];
+const NAMES: [(&str, &str); 7] =
+    [("Tr", "m"), ("Show", "show"), ("A_B", "c_d"), ("Tr", "main"), ("range", "chan"), ("Tr", "apply"), ("T_r_", "m__1")];
 
 fn program(r: &Recv, tr: &str, m: &str) -> String {
     let (oty, oval) = if r.label == "int32" { ("string", "\"o\"") } else { ("int32", "9") };
     let mut s = String::new();
-    s.push_str("struct Pq { a: int32 }\nstruct A_b { a: int32 }\nenum Ee { Aa, Bb(int32) }\nenum Opt[T] { Yes(T), Non }\nstruct Pair[L, R] { l: L, r: R }\n");
+    s.push_str("struct Pq { a: int32 }\nstruct pq { a: int32 }\nstruct A_b { a: int32 }\nenum Ee { Aa, Bb(int32) }\nenum E_e { Cc, Dd }\nenum Opt[T] { Yes(T), Non }\nstruct Pair[L, R] { l: L, r: R }\n");
     let _ = writeln!(s, "trait {} {{ fn {}(Self, int32) -> int32; fn other(Self) -> string; }}", tr, m);
     let _ = writeln!(
         s,
@@ -259,6 +291,52 @@ fn main() -> unit { let o = Opt::Yes(5); string_println(int32_to_string(o.has())
 "#),
 ];
 
+/// accepted programs in which equally named methods of different impls must stay apart:
+/// (id, source, [(enclosing function, substring its single method callee must contain)])
+const EXTRAS: &[(&str, &str, &[(&str, &str)])] = &[
+    (
+        "two-traits-same-method",
+        r#"struct Pq { a: int32 }
+trait Aa { fn m(Self) -> int32; }
+trait Bb { fn m(Self) -> int32; }
+impl Aa for Pq { fn m(self: Pq) -> int32 { 1 } }
+impl Bb for Pq { fn m(self: Pq) -> int32 { 2 } }
+fn f_a(x: Pq) -> int32 { Aa::m(x) }
+fn f_b(x: Pq) -> int32 { Bb::m(x) }
+fn f_da(x: Pq) -> int32 { let d: dyn Aa = x; Aa::m(d) }
+fn f_db(x: Pq) -> int32 { let d: dyn Bb = x; Bb::m(d) }
+fn main() -> unit { let p = Pq { a: 1 }; string_println(int32_to_string(f_a(p) + f_b(p) + f_da(p) + f_db(p))) }
+"#,
+        &[("f_a", "trait_impl_Aa_Pq_m"), ("f_b", "trait_impl_Bb_Pq_m"), ("f_da", "dyn__Aa__vtable__Pq"), ("f_db", "dyn__Bb__vtable__Pq")],
+    ),
+    (
+        "inherent-and-trait-same-method",
+        r#"struct Pq { a: int32 }
+trait Tr { fn m(Self) -> int32; }
+impl Tr for Pq { fn m(self: Pq) -> int32 { 1 } }
+impl Pq { fn m(self: Pq) -> int32 { 2 } }
+fn f_t(x: Pq) -> int32 { Tr::m(x) }
+fn f_dot(x: Pq) -> int32 { x.m() }
+fn f_path(x: Pq) -> int32 { Pq::m(x) }
+fn main() -> unit { let p = Pq { a: 1 }; string_println(int32_to_string(f_t(p) + f_dot(p) + f_path(p))) }
+"#,
+        &[("f_t", "trait_impl_Tr_Pq_m"), ("f_dot", "inherent_Pq_Pq_m"), ("f_path", "inherent_Pq_Pq_m")],
+    ),
+    (
+        "same-method-two-types-generic-inherent",
+        r#"enum Opt[T] { Yes(T), Non }
+struct Pq { a: int32 }
+impl[T] Opt[T] { fn has(self: Opt[T]) -> int32 { 1 } }
+impl Pq { fn has(self: Pq) -> int32 { 2 } }
+fn f_o(x: Opt[int32]) -> int32 { x.has() }
+fn f_s(x: Opt[string]) -> int32 { Opt::has(x) }
+fn f_p(x: Pq) -> int32 { x.has() }
+fn main() -> unit { let o: Opt[int32] = Opt::Yes(1); let s: Opt[string] = Opt::Non; string_println(int32_to_string(f_o(o) + f_s(s) + f_p(Pq { a: 1 }))) }
+"#,
+        &[("f_o", "inherent_Opt_Opt_x5b_T_x5d__has__T_int32"), ("f_s", "inherent_Opt_Opt_x5b_T_x5d__has__T_string"), ("f_p", "inherent_Pq_Pq_has")],
+    ),
+];
+
 pub fn main(args: &util::Args) {
     util::quiet_panics();
     let _ = std::fs::create_dir_all(&args.out);
@@ -266,7 +344,7 @@ pub fn main(args: &util::Args) {
     let mut out = String::new();
     let mut id = 0usize;
     let recvs = receivers();
-    let names: &[(&str, &str)] = if args.tier == "thorough" { &NAMES } else { &NAMES[..3] };
+    let names: &[(&str, &str)] = if args.tier == "thorough" { &NAMES } else { &NAMES[..5] };
     for r in &recvs {
         for (tr, m) in names {
             let src = program(r, tr, m);
@@ -324,6 +402,36 @@ pub fn main(args: &util::Args) {
             Outcome::Panic(m) => format!("panic:{}", m),
         };
         let _ = writeln!(out, "n{}\tNEG\t{}\t{}\t{}\t{}", id, nid, want, esc_line(&oc), esc_line(src));
+        id += 1;
+    }
+    for (xid, src, wants) in EXTRAS {
+        let dir = base.join(format!("x{}", id));
+        let outcome = util::compile_text(&dir, src);
+        let _ = std::fs::remove_dir_all(&dir);
+        let (oc, detail) = match outcome {
+            Outcome::Ok(c) => {
+                let rep = goscope::check(&c.go, relied());
+                let declared: Vec<&String> = rep.toplevel.iter().filter(|(_, k)| *k == "fn").map(|(n, _)| n).collect();
+                let mut v = Vec::new();
+                for (f, want) in wants.iter() {
+                    let refs: Vec<&String> = rep
+                        .global_refs
+                        .iter()
+                        .filter(|(caller, n)| caller == f && (n.contains("trait_impl") || n.contains("inherent") || n.contains("__vtable__")))
+                        .map(|(_, n)| n)
+                        .collect();
+                    let ok = refs.len() == 1 && refs[0].contains(want) && declared.contains(&refs[0]);
+                    v.push(l(vec![a(*f), a(*want), a(if ok { "ok" } else { "BAD" }), l(refs.iter().map(|r| a(r.as_str())).collect())]));
+                }
+                for fl in &rep.failures {
+                    v.push(l(vec![a("go-scope"), a(fl.kind), a("BAD"), l(vec![a(&fl.name)])]));
+                }
+                ("ok".to_string(), l(v))
+            }
+            Outcome::Err(stage, msgs) => (format!("err:{}:{}", stage, msgs.join(" | ")), l(vec![])),
+            Outcome::Panic(m) => (format!("panic:{}", m), l(vec![])),
+        };
+        let _ = writeln!(out, "x{}\tEXTRA\t{}\t{}\t{}\t{}", id, xid, esc_line(&oc), detail.to_text(), esc_line(src));
         id += 1;
     }
     let _ = std::fs::remove_dir_all(&base);
